@@ -12,7 +12,7 @@ static void gen_tail(Rng& r, const GenProfile& gp, std::vector<uint8_t>& out) {
     case 0: case 1: break;                                                       // nothing
     case 2: out.push_back((uint8_t)r.below(256)); break;                         // one arbitrary byte
     case 3: { std::vector<uint8_t> it = ref_encode(gen_mv(r, gp)); size_t k = r.below(it.size()); out.insert(out.end(), it.begin(), it.begin() + k); break; }  // truncated item
-    case 4: ref_encode(gen_mv(r, gp), out); break;                               // a further well-formed item
+    case 4: gen_encode(r, gen_mv(r, gp), out); break;                               // a further well-formed item
     case 5: { unsigned n = (unsigned)r.range(1, 12); for (unsigned i = 0; i < n; i++) out.push_back((uint8_t)r.below(256)); break; }   // garbage
     case 6: { std::vector<uint8_t> it = ref_encode(gen_mv(r, gp)); if (!it.empty()) it[r.below(it.size())] ^= (uint8_t)(1u << r.below(8)); out.insert(out.end(), it.begin(), it.end()); break; }  // corrupted successor
     default: { static const uint8_t B[] = {0xff, 0xff, 0xff, 0x1c, 0x5f, 0x9f, 0xbf, 0xc0, 0xf8, 0x7f, 0x81, 0xa1}; out.push_back(B[r.below(sizeof B)]); if (r.chance(1, 2)) { unsigned n = (unsigned)r.below(3); for (unsigned i = 0; i < n; i++) out.push_back(r.chance(1, 2) ? 0xff : (uint8_t)r.below(256)); } }
@@ -27,7 +27,7 @@ J gen_seq(const std::string& prop, uint64_t run_seed, const std::string& tier) {
     // x followed by more than 4 GiB of y (here: zero bytes, each a valid item): a receiver that maps a large file and decodes item by item
     GenProfile gp; gp.max_depth = 2; gp.max_kids = 3; std::vector<uint8_t> x;
     if (g.chance(1, 2)) { uint64_t cnt = g.range(1000, 3000); bool map = g.chance(1, 3); ref_head(map ? 5 : 4, cnt, x); for (uint64_t i = 0; i < cnt * (map ? 2 : 1); i++) x.push_back((uint8_t)(i % 24)); }
-    else ref_encode(gen_mv(g, gp), x);
+    else gen_encode(g, gen_mv(g, gp), x);
     J h = J::obj(); h.set("hex", to_hex(x)); J sizes = J::arr();
     for (int i = 0; i < 10; i++) { uint64_t base = (uint64_t)1 << 32; sizes.push(g.chance(1, 2) ? base + g.below(4000) : g.chance(1, 2) ? base + g.below(100000) : 2 * base + g.below(4000)); }
     sizes.push(((uint64_t)1 << 32) + 512); sizes.push((uint64_t)1 << 32);
@@ -82,8 +82,8 @@ J gen_seq(const std::string& prop, uint64_t run_seed, const std::string& tier) {
           }
           cur = std::move(w);
         }
-        ref_encode(cur, bytes);
-      } else ref_encode(gen_mv(g, gp), bytes);
+        gen_encode(g, cur, bytes);
+      } else gen_encode(g, gen_mv(g, gp), bytes);
     }
     gen_tail(g, gp, bytes);
     if (g.chance(1, 10) && !bytes.empty()) bytes[g.below(bytes.size())] ^= (uint8_t)(1u << g.below(8));   // channel corruption
